@@ -350,6 +350,33 @@ def rule_r4(ctx):
                     )
                 else:
                     rr.ok(what, sample={"rule": "C17-R4", "slot": f"{skind}.{sfield}", "op": op, "child": c, "parenthesised": False})
+    # parentheses added by a generator itself, outside the driver's precedence comparison: in a chain
+    # slot they are legitimate only for a WHOLE child text of a special form (an integer literal
+    # before `.attr`); a test on a part of the text (its last character, a prefix) also fires for
+    # chains - `o.n1.n2.n3` becomes `((o.n1).n2).n3`
+    from .c03 import render
+
+    for skind, sfield, op, children in G.chain_slots():
+        if skind not in U.gen_map:
+            continue
+        for pr in U.paths(skind):
+            if pr.outcome != "ok":
+                continue
+            txt = render(pr.result).replace(" ", "")
+            if f"(<{sfield}>)" not in txt:
+                continue
+            rr.instances += 1
+            whole = [k for k, v in pr.assign.items() if re.match(rf"str:text\({skind}\.{sfield}\)\.(isdigit|isdecimal|isnumeric)\(\)$", k) and v is True]
+            what = f"{skind}.{sfield}|own-parentheses"
+            if whole:
+                rr.ok(what, sample={"rule": "C17-R4", "generator": skind, "wraps_when": whole[0]})
+            else:
+                conds = [f"{k}={v}" for k, v in pr.assign.items() if "text(" in k]
+                rr.fail(
+                    f"C17-R4|{skind}.{sfield}|own-parentheses-on-partial-text",
+                    f"{U.gen_map[skind].where()}: the generator itself wraps its {sfield} in parentheses when [{'; '.join(conds)[:120] or 'always'}] - not a test that the WHOLE text is an integer literal: it also fires for the previous link of a chain (`o.n1.n2` becomes `(o.n1).n2`), so a chain of N links is nested N parentheses deep and CPython refuses more than about 200",
+                    where=U.gen_map[skind].where(), what=what,
+                )
     return rr
 
 
